@@ -177,37 +177,62 @@ def comparisons(prog, f, flow, n):
 
 
 def position_bounds(prog, chk, r3, boot):
-    """R12.3: an iterator advanced by n from begin() and then used as a position."""
-    from ..flow import strip_casts as sc
+    """R12.3: a position begin()+n (std::advance on an iterator from begin(), std::next(begin(), n), begin() + n)
+    handed to erase / insert."""
     for f in boot:
-        advs = [n for n in walk(f["body"]) if n.get("k") == "call" and n.get("fn") is not None and
-                (prog.decl(f, n["fn"]) or {}).get("q", "").startswith("std::advance")]
-        if not advs:
+        uses = [n for n in walk(f["body"]) if n.get("k") == "call" and n.get("name") in ("erase", "insert", "emplace") and n.get("args") and n.get("obj") is not None and
+                n.get("fn") is not None and container_kind((prog.decl(f, n["fn"]) or {}).get("cls")) == "seq"]
+        if not uses:
             continue
         flow = FnFlow(f)
         locs = ref_inits(f)
-        for adv in advs:
-            it, cnt = adv["args"][0], adv["args"][1]
-            itv = locs.get(sc(it).get("vid")) if sc(it).get("k") == "ref" else None
-            from_begin = itv is not None and itv.get("init") is not None and sc(itv["init"]).get("k") == "call" and sc(itv["init"]).get("name") == "begin"
-            cmp_ = comparisons(prog, f, flow, adv)
-            lower = any(same_var(l, cnt) and ((op == ">=" and is_zero(r)) or (op == ">" and is_lit(r, -1))) for l, op, r in cmp_) or \
-                prog.T(f, sc(cnt).get("t")).startswith("unsigned") or "size_t" in prog.T(f, sc(cnt).get("t"))
-            strict = any(same_var(r, cnt) and op == ">" and is_extent(prog, f, l, it, locs) for l, op, r in cmp_)
-            nonstrict = strict or any(same_var(r, cnt) and op == ">=" and is_extent(prog, f, l, it, locs) for l, op, r in cmp_)
-            uses = []
-            for n in walk(f["body"]):
-                if n.get("k") == "call" and n.get("name") in ("erase", "insert", "emplace") and n.get("args") and same_var(peel(n["args"][0]), peel(it)) and n["l"] >= adv["l"]:
-                    uses.append(n)
-            for u in uses:
-                need_strict = u["name"] == "erase"
-                ok = from_begin and lower and (strict if need_strict else nonstrict)
-                cont = (prog.decl(f, u["fn"]) or {}).get("cls", "?")
-                r3.ob("%s: %s(begin()+%s) on %s" % (strip_targs(f["q"]), u["name"], expr_str(prog, f, cnt), strip_targs(cont)), ok,
-                      "%s:%d" % (f["file"], u["l"]), f["q"],
-                      "position begin()+%s is used by %s without the dominating facts 0 <= %s %s distance(begin,end) (have: lower=%s, strict=%s, nonstrict=%s, from begin()=%s)" % (
-                          expr_str(prog, f, cnt), u["name"], expr_str(prog, f, cnt), "<" if need_strict else "<=", lower, strict, nonstrict, from_begin))
-                chk.touched([f])
+        for u in uses:
+            pos = position_of(prog, f, u["args"][0], locs)
+            if pos is None:
+                continue
+            cont, cnt, from_begin = pos
+            cmp_ = comparisons(prog, f, flow, u)
+            ct = prog.T(f, peel(cnt).get("t")) if peel(cnt).get("t") is not None else ""
+            lower = any(same_var(peel(l), peel(cnt)) and ((op == ">=" and is_zero(r)) or (op == ">" and is_lit(r, -1))) for l, op, r in cmp_) or \
+                ct.startswith("unsigned") or "size_t" in ct
+            strict = any(same_var(peel(r), peel(cnt)) and op == ">" and is_extent(prog, f, l, cont, locs) for l, op, r in cmp_)
+            nonstrict = strict or any(same_var(peel(r), peel(cnt)) and op == ">=" and is_extent(prog, f, l, cont, locs) for l, op, r in cmp_)
+            need_strict = u["name"] == "erase"
+            ok = from_begin and lower and (strict if need_strict else nonstrict)
+            cls = (prog.decl(f, u["fn"]) or {}).get("cls", "?")
+            r3.ob("%s: %s(begin()+%s) on %s" % (strip_targs(f["q"]), u["name"], expr_str(prog, f, cnt), strip_targs(cls)), ok,
+                  "%s:%d" % (f["file"], u["l"]), f["q"],
+                  "position begin()+%s is used by %s without the dominating facts 0 <= %s %s number of elements (have: lower bound %s, strict upper bound %s, "
+                  "non-strict upper bound %s, starts at begin() %s): a position past the end is undefined behaviour" % (
+                      expr_str(prog, f, cnt), u["name"], expr_str(prog, f, cnt), "<" if need_strict else "<=", lower, strict, nonstrict, from_begin))
+            chk.touched([f])
+
+
+def position_of(prog, f, e, locs):
+    """(container expr, count expr, starts_at_begin) for an iterator expression that denotes begin()+n, else None"""
+    e = peel(e)
+    if not isinstance(e, dict):
+        return None
+    if e.get("k") == "call" and e.get("name") in ("next",) and len(e.get("args", [])) == 2:
+        b = peel(e["args"][0])
+        if b.get("k") == "call" and b.get("name") in ("begin", "cbegin") and b.get("obj") is not None:
+            return (b["obj"], e["args"][1], True)
+        return (None, e["args"][1], False)
+    if e.get("k") == "call" and e.get("op") == "+" and e.get("obj") is not None and e.get("args"):
+        b = peel(e["obj"])
+        if b.get("k") == "call" and b.get("name") in ("begin", "cbegin") and b.get("obj") is not None:
+            return (b["obj"], e["args"][0], True)
+    if e.get("k") == "ref" and e.get("rk") == "local":
+        v = locs.get(e.get("vid"))
+        init = peel(v["init"]) if v is not None and v.get("init") is not None else {}
+        advs = [n for n in walk(f["body"]) if n.get("k") == "call" and n.get("name") == "advance" and len(n.get("args", [])) == 2 and
+                peel(n["args"][0]).get("vid") == e.get("vid")]
+        if len(advs) == 1:
+            fb = init.get("k") == "call" and init.get("name") in ("begin", "cbegin") and init.get("obj") is not None
+            return (init.get("obj") if fb else None, advs[0]["args"][1], fb)
+        if init.get("k") == "call":
+            return position_of(prog, f, init, locs)
+    return None
 
 
 def peel(e):
@@ -230,22 +255,25 @@ def is_lit(e, v):
     return v < 0 and isinstance(e, dict) and e.get("k") == "unop" and e.get("op") == "-" and is_lit(e.get("e"), -v)
 
 
-def is_extent(prog, f, e, it, locs):
-    """e denotes the number of elements from the iterator's start to the end: std::distance(it, end) with it still at
-    begin(), or container.size()"""
-    e = strip_casts(e)
+def is_extent(prog, f, e, cont, locs):
+    """e denotes the number of elements of the container: container.size(), or std::distance(<begin()>, <end()>) through locals"""
+    e = peel(e)
     if not isinstance(e, dict) or e.get("k") != "call":
         return False
+
+    def origin(x):
+        x = peel(x)
+        if x.get("k") == "ref" and x.get("rk") == "local":
+            v = locs.get(x.get("vid"))
+            if v is not None and v.get("init") is not None:
+                return peel(v["init"])
+        return x
     if e.get("name") == "distance" and len(e.get("args", [])) == 2:
-        a, b = e["args"]
-        if not same_var(peel(a), peel(it)):
-            return False
-        b = peel(b)
-        bv = locs.get(strip_casts(b).get("vid")) if strip_casts(b).get("k") == "ref" else None
-        bi = strip_casts(bv["init"]) if bv is not None and bv.get("init") is not None else strip_casts(b)
-        return bi.get("k") == "call" and bi.get("name") == "end"
+        a, b = origin(e["args"][0]), origin(e["args"][1])
+        return a.get("k") == "call" and a.get("name") in ("begin", "cbegin") and b.get("k") == "call" and b.get("name") in ("end", "cend") and \
+            (cont is None or (a.get("obj") is not None and same_var(a["obj"], cont) and same_var(b.get("obj"), cont)))
     if e.get("name") == "size" and e.get("obj") is not None:
-        return True
+        return cont is None or same_var(e["obj"], cont)
     return False
 
 
